@@ -676,3 +676,6 @@ PROPS["C06"]["rule"] += " One random history in four has slow transmissions (1 n
 PROPS["C08"]["rule"] += " State reads take up to 4 s."
 
 PROPS["C01"]["rule"] += " Advertiser half: in one case in three the interface is re-created between two dials and reports another hardware address (another 48-bit one, none, or an 8-byte one on odd dials) and index: each RA carries what its own connection's dial reported."
+
+PROPS["C20"]["rule"] += " The error Serve returns must be the one of the failure that came first (any of them if several tasks failed at that instant), not merely one of the errors returned."
+PROPS["C13"]["rule"] += " OS part: interface indices up to 2^31 - 1, address prefix lengths also 0, 1, 63, 65, 127."
